@@ -66,3 +66,17 @@ Theorem c06_run_cannot_pass_zero_column : forall m A k1 M1 piv1 k2 M2 piv2,
   elim m A k1 M1 piv1 -> candidates_zero m M1 piv1 k1 -> elim m A k2 M2 piv2 -> (k2 <= k1)%nat.
 Proof. exact run_cannot_pass_zero_column. Qed.
 Print Assumptions c06_run_cannot_pass_zero_column.
+
+(* a relaxed supernode reports the FIRST nonzero info of its columns (p?gstrf_factor_snode); its columns are visited in
+   ascending order (info = column + 1 or 0, nz_increasing), so this is the smallest one -- what the worker's own rule
+   (thread_info) would have kept column by column: the per-supernode combination does not change the reported position *)
+Theorem c06_snode_reports_its_first_singular_column : forall l, nz_increasing 0 l -> snode_info l = thread_info l.
+Proof. exact snode_info_is_thread_info. Qed.
+Print Assumptions c06_snode_reports_its_first_singular_column.
+
+Example c06_snode_info_example : snode_info [0; 2; 0; 4; 5] = 2 /\ nz_increasing 0 [0; 2; 0; 4; 5].
+Proof.
+  split; [reflexivity|]. cbn.
+  left. split; [reflexivity|]. right. split; [reflexivity|]. left. split; [reflexivity|].
+  right. split; [reflexivity|]. right. split; [reflexivity|]. exact I.
+Qed.
